@@ -61,9 +61,9 @@ def unary_operand_file(bits, level, seed):
     """operands of the one-operand operations (shift, double, square): the binary operand set plus the half-modulus limb product"""
     m = ref.q if bits == 384 else ref.r
     _, base = operand_file(bits, level, seed)
-    vals = alpha.dedup(base + alpha.half_limb_product(m, bits // 64, rich=(level > 3)))
+    vals = alpha.dedup(base + alpha.half_limb_product(m, bits // 64, rich=(level > 3)) + alpha.sign_limb_product(bits // 64))
     d = os.path.join(build.BUILD_ROOT, "cases")
-    path = os.path.join(d, "uops_%d_%d_%d.bin" % (bits, level, seed))
+    path = os.path.join(d, "uops2_%d_%d_%d.bin" % (bits, level, seed))
     if not os.path.exists(path):
         tmp = path + ".%d" % os.getpid()
         with open(tmp, "wb") as fh:
